@@ -462,6 +462,8 @@ def build_item(u, spec, twin, gen):
     for pref in u.strip_prefixes:
         for mm in re.finditer(r"(?<![\w:])" + re.escape(pref) + r"::((?:[a-z_][a-z0-9_]*::)*)(?=[A-Za-z_])", m):
             red.add(mm.start(), mm.end(), "", "R11")
+    if "R10" not in skip:
+        rules.r10_peekable(text, m, red)
     if "R13" not in skip:
         rules.r13_le_bytes(text, m, red)
     if "R14" not in skip:
